@@ -617,6 +617,119 @@ CARGO_CASES = [(t, c) for t in ('env', ['env'], ['env', 'pool'], ['env', 'pool',
                if not (t == ['env', 'pool', 'deep'] and 'B' in c)]
 
 
+class Watcher(Process):
+    defaults = {'timestep': 1.0}
+
+    def __init__(self, parameters=None):
+        super().__init__(parameters)
+        self.seen = []
+
+    def ports_schema(self):
+        return {'agents': {'*': {'x': {'_default': 1}}}}
+
+    def next_update(self, timestep, states):
+        self.seen.append(copy.deepcopy(states))
+        return {}
+
+
+def check_store_entry_views():
+    """Engine(store=..., initial_state=...): children named by the initial state under a glob store are in the views from the
+    first invocation on (the views are built from the hierarchy the engine starts with)"""
+    from vivarium.core.store import generate_state
+    fails = []
+    for extra in ({'b': {'x': 20}}, {'b': {'x': 20}, 'c': {'x': 30}}, {}):
+        w = Watcher()
+        procs, topo = {'w': w}, {'w': {'agents': ('agents',)}}
+        try:
+            store = generate_state(procs, topo, {'agents': {'a': {'x': 10}}})
+            eng = Engine(store=store, initial_state={'agents': copy.deepcopy(extra)} if extra else {}, display_info=False, emitter='null')
+            eng.update(2)
+        except Exception as e:
+            fails.append('Engine(store=..., initial_state=%r) raised %s: %s' % (extra, type(e).__name__, str(e)[:160]))
+            continue
+        want = {'a': {'x': 10}}
+        want.update(extra)
+        hier = {k: {'x': v['x']} for k, v in strip_procs(eng.state.get_value())['agents'].items()}
+        if hier != want:
+            fails.append('the hierarchy holds agents %r, expected %r' % (hier, want))
+        for i, st in enumerate(w.seen):
+            if st != {'agents': want}:
+                fails.append('invocation %d of the watcher was shown %r, the hierarchy holds %r' % (i, st, {'agents': want}))
+                break
+    return fails[:3]
+
+
+class Env(Process):
+    defaults = {'timestep': 1.0}
+
+    def __init__(self, parameters=None):
+        super().__init__(parameters)
+        self.seen = []
+
+    def ports_schema(self):
+        return {'agents': {'*': {'location': {'_default': 7}, 'boundary': {'size': {'_default': 3}}}}}
+
+    def next_update(self, timestep, states):
+        self.seen.append(copy.deepcopy(states))
+        return {}
+
+
+class Inner(Process):
+    defaults = {'timestep': 1.0}
+
+    def ports_schema(self):
+        return {'own': {'x': {'_default': 1}}}
+
+    def next_update(self, timestep, states):
+        return {'own': {'x': 1}}
+
+
+class KeyedSpawner(Process):
+    defaults = {'timestep': 1.0, 'how': '_generate'}
+
+    def __init__(self, parameters=None):
+        super().__init__(parameters)
+        self.k = 0
+
+    def ports_schema(self):
+        return {'agents': {}}
+
+    def next_update(self, timestep, states):
+        self.k += 1
+        if self.k != 2:
+            return {}
+        if self.parameters['how'] == '_generate':
+            return {'agents': {'_generate': [{'key': '2', 'processes': {'inner': Inner()},
+                                              'topology': {'inner': {'own': ('own',)}}, 'initial_state': {}}]}}
+        return {'agents': {'_add': [{'key': '2', 'state': {'own': {'x': 1}}}]}}
+
+
+def check_generate_subschema(how):
+    """a compartment that joins a store through _generate (with a key) / _add gets the sub-schema another process declared for
+    the children of that store: the declared variables exist with their defaults and the declaring process sees them"""
+    env = Env()
+    try:
+        eng = Engine(processes={'env': env, 'spawner': KeyedSpawner({'how': how}), 'agents': {'1': {'inner': Inner()}}},
+                     topology={'env': {'agents': ('agents',)}, 'spawner': {'agents': ('agents',)},
+                               'agents': {'1': {'inner': {'own': ('own',)}}}},
+                     display_info=False, emitter='null')
+        eng.update(4)
+    except Exception as e:
+        return ['%s of a keyed compartment under a store with a declared sub-schema: engine raised %s: %s'
+                % (how, type(e).__name__, str(e)[:160])]
+    fails = []
+    ag = strip_procs(eng.state.get_value())['agents']
+    for k in ('1', '2'):
+        if k not in ag:
+            fails.append('agent %s missing after %s' % (k, how))
+        elif ag[k].get('location') != 7 or ag[k].get('boundary') != {'size': 3}:
+            fails.append('agent %s (%s) lacks the variables declared for the children of the store: %r' % (k, how, ag[k]))
+    last = env.seen[-1]['agents']
+    if set(last) != {'1', '2'} or any(v != {'location': 7, 'boundary': {'size': 3}} for v in last.values()):
+        fails.append('the declaring process is shown %r' % (last,))
+    return fails[:2]
+
+
 class Reissuer(Process):
     """issues scripted structural directives; with cached=True the SAME dict objects are returned again and again (a
     process that builds its directive once), otherwise an equal fresh copy each time -- both must behave identically"""
@@ -697,7 +810,7 @@ def main():
     if a.replay:
         rec = json.load(open(a.replay))
         h = rec['scenario']
-        fails = check_reissue(h) if rec.get('kind') == 'reissue' else check_cargo_move(h['target'], h['cargo']) if rec.get('kind') == 'cargo' else (check_moved_views(h) if rec.get('kind') == 'moved' else check_history(h, a.prop))
+        fails = check_generate_subschema(h['how']) if rec.get('kind') == 'subschema' else check_store_entry_views() if rec.get('kind') == 'storeentry' else check_reissue(h) if rec.get('kind') == 'reissue' else check_cargo_move(h['target'], h['cargo']) if rec.get('kind') == 'cargo' else (check_moved_views(h) if rec.get('kind') == 'moved' else check_history(h, a.prop))
         L.emit_result({'status': 'reproduced' if fails else 'not-reproduced', 'failed': fails})
         return
     n = {'quick': 150, 'thorough': 5000}[a.tier]
@@ -719,6 +832,13 @@ def main():
             failures.append({'id': '%s.bounded.history#%d: %s' % (a.prop, i, fails[0][:260]), 'replay': rp})
             if len(failures) >= 3:
                 break
+    if a.prop == 'C07' and len(failures) < 3:
+        evaluations += 1
+        fails = check_store_entry_views()
+        distinct.add('store-entry-views')
+        if fails:
+            rp = L.write_replay(a.out, a.prop, 'storeentry', {'store_entry': True}, fails, kind='storeentry', extra={'driver': 'bounded.struct'})
+            failures.append({'id': '%s.bounded.store-entry: %s' % (a.prop, fails[0][:260]), 'replay': rp})
     if a.prop in ('C07', 'C10'):
         for mi, script in enumerate(MOVE_SCRIPTS):
             if len(failures) >= 3:
@@ -730,6 +850,15 @@ def main():
                 rp = L.write_replay(a.out, a.prop, 'moved%d' % mi, script, fails, kind='moved', extra={'driver': 'bounded.struct'})
                 failures.append({'id': '%s.bounded.moved#%d: %s' % (a.prop, mi, fails[0][:260]), 'replay': rp})
     if a.prop == 'C09':
+        for how in ('_generate', '_add'):
+            if len(failures) >= 3:
+                break
+            evaluations += 1
+            fails = check_generate_subschema(how)
+            distinct.add('subschema' + how)
+            if fails:
+                rp = L.write_replay(a.out, a.prop, 'subschema' + how, {'how': how}, fails, kind='subschema', extra={'driver': 'bounded.struct'})
+                failures.append({'id': '%s.bounded.subschema[%s]: %s' % (a.prop, how, fails[0][:260]), 'replay': rp})
         for gi, (target, cargo) in enumerate(CARGO_CASES):
             if len(failures) >= 3:
                 break
